@@ -174,7 +174,7 @@ impl Prop for C14 {
             .count();
         serde_json::to_value(Case {
             kind: if c.entry == 1 { c.kind } else { c.kind },
-            text: if c.entry == 1 { c.text[crate::props::c10::header_for(c.kind).len()..].to_string() } else { c.text },
+            text: c.body().to_string(),
             inputs,
             layouts,
             features,
